@@ -546,19 +546,25 @@ def rule_decoders(model):
                               'each bytes value must be decoded on its own',
                               node=d, ctx=fi)
     # join_unicode: only bytes elements are decoded, order kept
-    ju = model.func('_DocumentTemplate', 'join_unicode')
+    # (on the view with new helpers inlined: a helper that decodes the
+    # list is judged as part of join_unicode)
+    mi = model.inlined_view()
+    ju = mi.func('_DocumentTemplate', 'join_unicode')
     pieces = ju.params()[0]
 
     busy = set()
 
-    def in_order(e, depth=0):
-        # e holds the pieces in list order: the parameter, a list() copy,
-        # a local bound to one of those, or a comprehension over one of
-        # those that yields the element (decoded or not)
+    def in_order(e, depth=0, fi=None, pname=None):
+        # e (an expression of fi) holds the pieces in list order: the
+        # parameter, a list() copy, a local bound to one of those, a
+        # comprehension over one of those that yields the element (decoded
+        # or not), or what a helper returns that is handed one of those
+        fi = fi or ju
+        pname = pname or pieces
+        if depth > 6:
+            return False
         if isinstance(e, ast.Name):
-            if depth > 4:
-                return False
-            ds = model.local_defs(ju, e.id)
+            ds = mi.local_defs(fi, e.id)
             ok = bool(ds)
             for d in ds:
                 if isinstance(d, ast.AST):
@@ -566,15 +572,28 @@ def rule_decoders(model):
                         continue        # rendered = list(rendered)
                     busy.add(id(d))
                     try:
-                        ok = ok and in_order(d, depth + 1)
+                        ok = ok and in_order(d, depth + 1, fi, pname)
                     finally:
                         busy.discard(id(d))
-                elif not (d == 'param' and e.id == pieces):
+                elif not (d == 'param' and e.id == pname):
                     ok = False
             return ok
         if isinstance(e, ast.Call) and isinstance(e.func, ast.Name) and \
                 e.func.id in ('list', 'tuple') and len(e.args) == 1:
-            return in_order(e.args[0], depth + 1)
+            return in_order(e.args[0], depth + 1, fi, pname)
+        if isinstance(e, ast.Call) and isinstance(e.func, ast.Name) and \
+                e.args:
+            tg = mi.resolve_callee(e.func, fi)
+            if len(tg) == 1 and tg[0][0] == 'func' and tg[0][1].params() \
+                    and in_order(e.args[0], depth + 1, fi, pname):
+                h = tg[0][1]
+                hr = [x for x in own_nodes(h.node)
+                      if isinstance(x, ast.Return)]
+                return bool(hr) and all(
+                    x.value is not None and
+                    in_order(x.value, depth + 1, h, h.params()[0])
+                    for x in hr)
+            return False
         if isinstance(e, (ast.ListComp, ast.GeneratorExp)) and \
                 len(e.generators) == 1 and not e.generators[0].ifs and \
                 isinstance(e.generators[0].target, ast.Name):
@@ -590,7 +609,7 @@ def rule_decoders(model):
                     return elt_ok(x.func.value)
                 return False
             return elt_ok(e.elt) and in_order(e.generators[0].iter,
-                                              depth + 1)
+                                              depth + 1, fi, pname)
         return False
     rets = [x for x in own_nodes(ju.node) if isinstance(x, ast.Return)]
     bad = []
